@@ -169,6 +169,11 @@ func vErrCode(err error) string {
 	if errors.As(err, &ae) {
 		return ae.ErrorCode()
 	}
+	// errors of the core package carry their class in Code()
+	var ce interface{ Code() string }
+	if errors.As(err, &ce) {
+		return ce.Code()
+	}
 	return "other"
 }
 
